@@ -188,7 +188,11 @@ func (e *Exec) Concretize(t *Term, isLen bool, what string) int64 {
 		block = tc.BAnd(block, tc.BNot(tc.Eq(t, tc.BV(v, t.w))))
 	}
 	if len(vals) == 0 {
-		e.endPath(stBound, "no value of "+what+" within the size bound")
+		where := ""
+		if n := len(e.curFn); n > 0 {
+			where = " in " + e.curFn[n-1].String()
+		}
+		e.endPath(stBound, "no value of "+what+" within the size bound"+where)
 	}
 	for _, v := range vals[1:] {
 		e.push(append(append([]int64(nil), e.decisions...), int64(v)))
